@@ -127,6 +127,35 @@ UNITS = {
             "fn compare_values(",
         ],
     },
+    "freelist": {
+        "src": "src/storage/freelist.rs",
+        "anchors": [
+            "pub fn allocate<S: Storage>(&mut self, storage: &mut S) -> Result<Option<u32>>",
+            "pub fn release<S: Storage>(&mut self, storage: &mut S, page_no: u32) -> Result<()>",
+            "fn create_new_trunk<S: Storage>(&mut self, storage: &mut S, page_no: u32) -> Result<()>",
+            "fn initialize_trunk<S: Storage>(&mut self, storage: &mut S, page_no: u32) -> Result<()>",
+            "pub fn from_bytes(data: &[u8]) -> Result<&Self>",
+            "pub fn from_bytes_mut(data: &mut [u8]) -> Result<&mut Self>",
+        ],
+    },
+    "headers": {
+        "src": "src/storage/headers.rs",
+        "anchors": ["pub fn from_bytes(bytes: &[u8]) -> Result<&Self>"],
+    },
+    "page": {
+        "src": "src/storage/page.rs",
+        "anchors": ["pub fn from_bytes(data: &[u8]) -> Result<&Self>", "pub fn validate_page(data: &[u8]) -> Result<()>"],
+    },
+    "leaf": {
+        "src": "src/btree/leaf.rs",
+        "anchors": [
+            "pub fn from_page(data: &'a [u8]) -> Result<Self>",
+            "pub fn slot_at(&self, index: usize) -> Result<&Slot>",
+            "pub fn key_at(&self, index: usize) -> Result<&'a [u8]>",
+            "pub fn value_at(&self, index: usize) -> Result<&'a [u8]>",
+            "pub fn value_len_at(&self, index: usize) -> Result<usize>",
+        ],
+    },
 }
 
 PROPS = {
@@ -164,6 +193,7 @@ PROPS = {
         "level_note": "Trusted: Kani/CBMC (kissat for the partitioned inverse). The induction over days from the anchor is a meta-argument stated in contracts/kani/_calendar_oracle.rs. Not covered: string splitting/number parsing in parse_date/parse_time/parse_timestamp, canonical rendering, the inline JDN arithmetic in CompiledPredicate::parse_date.",
         "technique": "Kani full-domain Hoare triples (anchor + successor induction step) on the real calendar kernels; year loop closed by unwind bound derived from the precondition",
         "kani_units": ["datetime", "constraints", "literal"],
+        "verus_units": ["literal_year_loop"],
         "explanation": "",
     },
     "C39": {
@@ -205,6 +235,25 @@ PROPS = {
         "level_note": "Partial. Open known finding: integer overflow (a+b, a-b, a*b, i64::MIN / -1, i64::MIN % -1, pow) panics in debug builds / wraps in release instead of reporting an error. str-level reasoning is outside both back ends.",
         "technique": "Kani full-domain Hoare triples on the real arithmetic and calendar kernels",
         "kani_units": ["predicate", "datetime"],
+        "explanation": "",
+    },
+    "C34": {
+        "level": "proof",
+        "level_text": "Proof (inductive) that the freelist is a LIFO stack of released pages: for an ARBITRARY well-formed (Freelist, store) pair, allocate returns exactly the top of the stack (a previously released, not yet re-allocated page) or None iff empty, release(p) pushes p, free_count always equals the stack size (so the reported free count is what allocations can return), the invariant is preserved, and nothing else — in particular the file-header page 0 — is modified (witness-index frame over every page byte). Trunk capacity is unbounded (symbolic count up to TRUNK_MAX_ENTRIES); the number of trunk pages in the chain is bounded by the 3-page harness store (<= 2 trunks).",
+        "level_note": "Bound: chain length <= 2 trunks (3-page harness store standing for MmapStorage through the real Storage trait). Precondition of release: the page is not currently in the freelist (caller obligation, as in the property: released pages are pages in use). Trusted: zerocopy ref_from_bytes/mut_from_bytes as compiled by Kani; harness-side Storage impl (array indexing).",
+        "technique": "Kani inductive invariant + per-operation step contracts over an arbitrary well-formed state, frame by witness index, against the real Storage trait implemented by a harness-side page array",
+        "kani_units": ["freelist"],
+        "harness_timeout": 1200,
+        "rustflags": "--cfg kahflane_turdb_verif_small_pages",
+        "explanation": "",
+    },
+    "C23": {
+        "level": "proof",
+        "level_text": "Proof (complete over the input bytes) that the fixed-size decoders return a value or an error and never panic, overflow or read out of bounds: decode_varint on every byte string; the three file-header decoders on any 0..160 bytes; PageHeader::from_bytes / validate_page on any bytes of any length up to a page; LeafNode::{from_page, slot_at, key_at, value_at, value_len_at} on ANY 16 KiB of page bytes and any index; decode_key for every non-recursive prefix on any 0..24 bytes; RowSerde::deserialize_value for every fixed-width discriminant. Partial: JSONB, array, catalog, WAL-frame and HNSW decoders, RecordView getters, recursive decode_key arms and opening corrupted database files are not covered.",
+        "level_note": "Partial. Open known finding: slot_at slices beyond the page when cell_count is corrupted. Recursive/variable-length decoders are bounded stand-ins where present. File-system level clause (opening a corrupted database) is outside this technique.",
+        "technique": "Kani Hoare triples over fully symbolic input bytes (and symbolic length / index) on the real decoders; Kani's bounds, overflow and unwrap checks are the postcondition",
+        "kani_units": ["varint", "key", "row_serde", "headers", "page", "leaf"],
+        "harness_timeout": 900,
         "explanation": "",
     },
 }
